@@ -23,7 +23,7 @@ import (
 // executed in a probe process (see deep.go) under a watchdog of its own:
 //
 //	heap above probeHeapLimit        -> the row is reported as no-return:unbounded-allocation:<class>
-//	row running longer than probeRowTime -> hang:<class>
+//	row using more than probeRowTime of processor time (or 10 x as much wall time) -> hang:<class>
 //	fatal error of the Go runtime    -> fatal:<stack-overflow|...>:<class>
 //	panic                            -> <class>:panic:<package>
 //
@@ -251,10 +251,258 @@ var unitSetChildCycles = probeUnit{
 	},
 }
 
-var probeUnits = []probeUnit{unitNamedPointers, unitSetChildCycles}
+// ---------------------------------------------------------------------------
+// unit 2: settings that use each other in LAYERS - every setting of a level is
+// a splice of references to settings of the next level, so that a setting is
+// reached over many routes (2^levels of them). All leaves are empty: the
+// values stay empty, only the work can multiply. Evaluating a value once per
+// call (cache) makes this linear in the number of settings; bookkeeping that
+// follows every route does not return. No hook of the library is passed inside
+// such bookkeeping, so the rows run here, under the CPU-time watchdog.
+
+type graphShape struct {
+	name  string
+	build func(levels int, r *rand.Rand) map[string]interface{}
+}
+
+func lv(name string, i int) string  { return fmt.Sprintf("%s%d", name, i) }
+func ref(name string, i int) string { return "${" + lv(name, i) + "}" }
+
+var graphShapes = []graphShape{
+	{"diamonds-with-spliced-middles", func(n int, r *rand.Rand) map[string]interface{} {
+		m := mp{"e": "", lv("a", n): ""}
+		for i := 0; i < n; i++ {
+			m[lv("a", i)] = ref("b", i) + ref("c", i)
+			m[lv("b", i)] = ref("a", i+1) + "${e}"
+			m[lv("c", i)] = "${e}" + ref("a", i+1)
+		}
+		return m
+	}},
+	{"diamonds-with-plain-middles", func(n int, r *rand.Rand) map[string]interface{} {
+		m := mp{lv("a", n): ""}
+		for i := 0; i < n; i++ {
+			m[lv("a", i)] = ref("b", i) + ref("c", i)
+			m[lv("b", i)] = ref("a", i+1)
+			m[lv("c", i)] = ref("a", i+1)
+		}
+		return m
+	}},
+	{"three-way-fans", func(n int, r *rand.Rand) map[string]interface{} {
+		m := mp{"e": "", lv("a", n): ""}
+		for i := 0; i < n; i++ {
+			m[lv("a", i)] = ref("b", i) + ref("c", i) + ref("d", i)
+			for _, x := range []string{"b", "c", "d"} {
+				m[lv(x, i)] = "${e}" + ref("a", i+1) + "${e}"
+			}
+		}
+		return m
+	}},
+	{"diamonds-through-defaults", func(n int, r *rand.Rand) map[string]interface{} {
+		m := mp{"e": "", lv("a", n): ""}
+		for i := 0; i < n; i++ {
+			m[lv("a", i)] = "${" + lv("b", i) + ":" + ref("c", i) + "}" + "${e:+x}"
+			m[lv("b", i)] = ref("a", i+1) + "${e}"
+			m[lv("c", i)] = "${e:}" + ref("a", i+1)
+		}
+		return m
+	}},
+	{"two-wide-ladder", func(n int, r *rand.Rand) map[string]interface{} {
+		m := mp{lv("a", n): "", lv("b", n): ""}
+		for i := 0; i < n; i++ {
+			m[lv("a", i)] = ref("a", i+1) + ref("b", i+1)
+			m[lv("b", i)] = ref("b", i+1) + ref("a", i+1)
+		}
+		return m
+	}},
+	{"diamonds-inside-objects-and-lists", func(n int, r *rand.Rand) map[string]interface{} {
+		m := mp{"e": "", lv("a", n): mp{"p": "", "l": li{""}}}
+		for i := 0; i < n; i++ {
+			m[lv("a", i)] = mp{"p": ref("b", i) + ref("c", i), "l": li{ref("b", i), ref("c", i)}}
+			m[lv("b", i)] = "${" + lv("a", i+1) + ".p}${e}"
+			m[lv("c", i)] = "${e}${" + lv("a", i+1) + ".l.0}"
+		}
+		return m
+	}},
+	{"random-layered-graph", func(n int, r *rand.Rand) map[string]interface{} {
+		names := []string{"a", "b", "c"}
+		m := mp{"e": ""}
+		for _, x := range names {
+			m[lv(x, n)] = ""
+		}
+		for i := 0; i < n; i++ {
+			for _, x := range names {
+				var sb strings.Builder
+				for j, c := 0, 1+r.Intn(3); j < c; j++ {
+					y := names[r.Intn(len(names))]
+					switch r.Intn(5) {
+					case 0:
+						sb.WriteString("${" + lv(y, i+1) + ":" + ref(names[r.Intn(3)], i+1) + "}")
+					case 1:
+						sb.WriteString("${e}" + ref(y, i+1))
+					default:
+						sb.WriteString(ref(y, i+1))
+					}
+				}
+				m[lv(x, i)] = sb.String()
+			}
+		}
+		return m
+	}},
+}
+
+var graphLevels = []int{4, 12, 24, 40, 64}
+
+var unitReferenceGraphs = probeUnit{
+	name: "layered-reference-graphs",
+	rows: func() int { return len(graphShapes) * len(graphLevels) },
+	// the shape varies fastest: the first rows cover every shape
+	label: func(i int) string {
+		return fmt.Sprintf("%s, %d levels; String(a0), Unpack, FlattenedKeys", graphShapes[i%len(graphShapes)].name, graphLevels[i/len(graphShapes)])
+	},
+	class: func(i int) string { return "read-of-layered-reference-graph" },
+	run: func(i int) string {
+		sh, n := graphShapes[i%len(graphShapes)], graphLevels[i/len(graphShapes)]
+		opts := []ucfg.Option{ucfg.VarExp, ucfg.PathSep(".")}
+		c, err := ucfg.NewFrom(sh.build(n, rand.New(rand.NewSource(int64(i)))), opts...)
+		if err != nil {
+			return "refused"
+		}
+		out := "read"
+		if _, err := c.String("a0", -1, opts...); err != nil {
+			out = "read-error"
+		}
+		var to map[string]interface{}
+		if err := c.Unpack(&to, opts...); err != nil {
+			out = "read-error"
+		}
+		c.FlattenedKeys(opts...)
+		c.Has("a0", -1, opts...)
+		// a second read of the same configuration
+		c.String("a0", -1, opts...)
+		return out
+	},
+}
+
+// ---------------------------------------------------------------------------
+// unit 3: target struct types that INLINE a pointer to themselves, directly or
+// through other types (such types can not be built with reflect)
+
+type selfInline struct {
+	A    int         `config:"a"`
+	Next *selfInline `config:",inline"`
+}
+
+type selfInlineA struct {
+	A int          `config:"a"`
+	B *selfInlineB `config:",inline"`
+}
+type selfInlineB struct {
+	V int          `config:"v"`
+	A *selfInlineA `config:",inline"`
+}
+
+type selfInline3A struct {
+	A int           `config:"a"`
+	B *selfInline3B `config:",inline"`
+}
+type selfInline3B struct {
+	C *selfInline3C `config:",inline"`
+}
+type selfInline3C struct {
+	X int           `config:"x"`
+	A *selfInline3A `config:",inline"`
+}
+
+type selfEmbedded struct {
+	A             int `config:"a"`
+	*selfEmbedded `config:",inline"`
+}
+
+type selfInlineAndNamed struct {
+	A      int                 `config:"a"`
+	Inline *selfInlineAndNamed `config:",inline"`
+	Next   *selfInlineAndNamed `config:"next"`
+}
+
+type selfInlineMap struct {
+	A    int                       `config:"a"`
+	Rest map[string]*selfInlineMap `config:",inline"`
+}
+
+type selfInlineIface struct {
+	A    int         `config:"a"`
+	Next interface{} `config:",inline"`
+}
+
+type selfInlineValidated struct {
+	A    int                  `config:"a" validate:"min=0"`
+	Next *selfInlineValidated `config:",inline" validate:"required"`
+}
+
+var selfInlineRows = []namedRow{
+	{"struct inlining a pointer to itself", func() interface{} { return &selfInline{} }},
+	{"... with the pointer set", func() interface{} { return &selfInline{Next: &selfInline{A: 1}} }},
+	{"two types inlining pointers to each other", func() interface{} { return &selfInlineA{} }},
+	{"... with the pointers set", func() interface{} { return &selfInlineA{B: &selfInlineB{A: &selfInlineA{}}} }},
+	{"three types in a ring of inline pointers", func() interface{} { return &selfInline3A{} }},
+	{"struct embedding a pointer to itself, inline", func() interface{} { return &selfEmbedded{} }},
+	{"inline and named pointer to itself", func() interface{} { return &selfInlineAndNamed{} }},
+	{"inline map of pointers to itself", func() interface{} { return &selfInlineMap{} }},
+	{"inline interface holding a pointer to another value of the type", func() interface{} { return &selfInlineIface{Next: &selfInlineIface{}} }},
+	{"self-inlining type with validators", func() interface{} { return &selfInlineValidated{} }},
+	{"map of self-inlining structs", func() interface{} { return &map[string]selfInline{} }},
+	{"slice of pointers to self-inlining structs", func() interface{} { return &[]*selfInlineA{} }},
+	{"field of a self-inlining type", func() interface{} { return &struct{ A selfInline3A }{} }},
+}
+
+var selfInlineFixtures = []string{"empty", "a-int", "a-object", "deep", "a-list", "references-to-ancestors"}
+
+var unitSelfInline = probeUnit{
+	name: "self-inlining-target-types",
+	rows: func() int { return len(selfInlineRows) * len(selfInlineFixtures) },
+	label: func(i int) string {
+		return selfInlineRows[i%len(selfInlineRows)].label + " <- config " + selfInlineFixtures[i/len(selfInlineRows)]
+	},
+	class: func(i int) string { return "Unpack:self-inlining-target-type" },
+	run: func(i int) string {
+		row := selfInlineRows[i%len(selfInlineRows)]
+		f := fixtureByName(selfInlineFixtures[i/len(selfInlineRows)])
+		var base []ucfg.Option
+		if f.varexp {
+			base = []ucfg.Option{ucfg.VarExp}
+		}
+		c, err := ucfg.NewFrom(f.build(), base...)
+		if err != nil {
+			return "fixture-refused"
+		}
+		out := "ok"
+		for _, opts := range [][]ucfg.Option{nil, {ucfg.PathSep("."), ucfg.AppendValues}, {ucfg.ReplaceValues}} {
+			if err := c.Unpack(row.mk(), append(append([]ucfg.Option{}, base...), opts...)...); err != nil {
+				out = "error"
+			}
+		}
+		// the type as a Merge source as well
+		if _, err := ucfg.NewFrom(row.mk()); err != nil {
+			out = "error"
+		}
+		return out
+	},
+}
+
+var probeUnits = []probeUnit{unitNamedPointers, unitSetChildCycles, unitReferenceGraphs, unitSelfInline}
 
 // ---------------------------------------------------------------------------
 // probe side
+
+// cpuTime: processor time consumed by this process - a row is given
+// probeRowTime of it, whatever the load of the machine
+func cpuTime() time.Duration {
+	var ru syscall.Rusage
+	if syscall.Getrusage(syscall.RUSAGE_SELF, &ru) != nil {
+		return 0
+	}
+	return time.Duration(ru.Utime.Nano() + ru.Stime.Nano())
+}
 
 func unitChild(unitArg, startArg string) {
 	debug.SetMaxStack(64 << 20) // as in the workers
@@ -264,6 +512,7 @@ func unitChild(unitArg, startArg string) {
 	start, _ := strconv.Atoi(startArg)
 	u := probeUnits[ui]
 	var rowStart time.Time
+	var rowCPU time.Duration
 	row := -1
 	go func() {
 		for {
@@ -274,7 +523,7 @@ func unitChild(unitArg, startArg string) {
 				fmt.Printf("WATCHDOG heap %d %d MB after %v\n", row, ms.HeapAlloc>>20, time.Since(rowStart).Round(time.Millisecond))
 				os.Exit(3)
 			}
-			if row >= 0 && time.Since(rowStart) > probeRowTime {
+			if row >= 0 && (cpuTime()-rowCPU > probeRowTime || time.Since(rowStart) > 10*probeRowTime) {
 				fmt.Printf("WATCHDOG time %d %d MB after %v\n", row, ms.HeapAlloc>>20, time.Since(rowStart).Round(time.Millisecond))
 				os.Exit(4)
 			}
@@ -283,6 +532,7 @@ func unitChild(unitArg, startArg string) {
 	for i := start; i < u.rows(); i++ {
 		fmt.Printf("START %d\n", i)
 		rowStart = time.Now()
+		rowCPU = cpuTime()
 		row = i
 		func() {
 			defer func() {
@@ -326,7 +576,7 @@ func runProbeUnit(m *mon, r *rand.Rand, seed int64, tier string, k int) {
 			res.Ev("m_rows_not_run_after_many_probe_deaths", int64(total-start))
 			break
 		}
-		ctx, cancel := context.WithTimeout(context.Background(), time.Duration(total-start)*probeRowTime+10*time.Second)
+		ctx, cancel := context.WithTimeout(context.Background(), time.Duration(total-start)*10*probeRowTime+10*time.Second)
 		cmd := exec.CommandContext(ctx, exe, "c07-unit-probe")
 		cmd.Env = append(os.Environ(), fmt.Sprintf("%s=U,%d,%d", deepEnv, k, start))
 		cmd.SysProcAttr = &syscall.SysProcAttr{Pdeathsig: syscall.SIGKILL}
@@ -387,7 +637,7 @@ func runProbeUnit(m *mon, r *rand.Rand, seed int64, tier string, k int) {
 		case strings.HasPrefix(watchdog, "WATCHDOG heap"):
 			res.Violate("no-return:unbounded-allocation:"+u.class(last), "the call did not return and the heap of the probe process passed %d MB (%s); input: %s", probeHeapLimit>>20, watchdog, u.label(last))
 		case strings.HasPrefix(watchdog, "WATCHDOG time") || timedOut:
-			res.Violate("hang:"+u.class(last), "the call did not return within %v (%s); input: %s", probeRowTime, watchdog, u.label(last))
+			res.Violate("hang:"+u.class(last), "the call did not return within %v of processor time (%s); input: %s", probeRowTime, watchdog, u.label(last))
 		default:
 			class := deathClass(se.String())
 			pkg, fns := recursionOwner(se.String())
